@@ -5,7 +5,7 @@ Claimed: rotations by shape interpretation, one-step rebalance for all height
 configurations, pairing/purity/rebalance-start structure of insert and delete.
 """
 import itertools
-from ..core import (AnalysisBroken, canon, strip, last_member, must_pass, relpath, norm_cond, walk, forward, lvalue_root)
+from ..core import (names_of, same_value, AnalysisBroken, canon, strip, last_member, must_pass, relpath, norm_cond, walk, forward, lvalue_root)
 from ..analyses import (is_call, holding, path_to, describe, exits_of, loops, innermost_loop, must_pass_from_block)
 from ..heap import Heap, Interp, Stuck, NULL
 from .c11 import null_rule
